@@ -78,6 +78,12 @@ structure OSt where
   unprocessed : List Nat := []
   /-- an incarnation died while its completion report was still unprocessed -/
   stale : Bool := false
+  /-- the pool had size 0 and a resize request of this step gave it its first workers -/
+  grewFromZero : Bool := false
+  /-- ids of the jobs that started in the current step -/
+  stepStarts : List Nat := []
+  /-- the factory has been held busy at some point (messages queued behind it bypass the factory queue's order) -/
+  everBlocked : Bool := false
   bad : List String := []
   deriving Repr
 
@@ -91,6 +97,9 @@ def OSt.flag (s : OSt) (c : String) : OSt :=
 def OSt.getJob (s : OSt) (id : Nat) : Option JobRec := s.jobs.find? (·.id == id)
 def OSt.setJob (s : OSt) (j : JobRec) : OSt :=
   { s with jobs := s.jobs.map fun x => if x.id == j.id then j else x }
+
+/-- priority index of the harness' `PriorityManager` (same as `prioOf` of the model) -/
+def prioKey (key : Nat) : Nat := let r := key % 7; if r < 5 then r else 3
 
 def affinityRouter : RouterKind → Bool
   | .kp | .sq => true
@@ -124,7 +133,8 @@ def oStep (s : OSt) : Ev → OSt
     let s := { s with stepOps := s.stepOps + 1 }
     -- a request sent to a busy factory takes effect when its turn comes
     if s.blocked then { s with pendingReq := s.pendingReq ++ [n] }
-    else if n == 0 then s else { s with requested := min n GLOBAL_WORKER_POOL_MAXIMUM }
+    else if n == 0 then s
+    else { s with requested := min n GLOBAL_WORKER_POOL_MAXIMUM, grewFromZero := s.grewFromZero || s.requested == 0 }
   | .released n =>
     let s := { s with stepOps := s.stepOps + 1 }
     let s := match s.pendingHandler.getLast? with
@@ -137,7 +147,7 @@ def oStep (s : OSt) : Ev → OSt
   | .drainReq => { s with drainReq := true, stepOps := s.stepOps + 1 }
   | .build wid aid => { s with widOf := s.widOf ++ [(aid, wid)] }
   | .start aid id key =>
-    let s := { s with startsTotal := s.startsTotal + 1 }
+    let s := { s with startsTotal := s.startsTotal + 1, stepStarts := id :: s.stepStarts }
     let s := if !s.up then s.flag "c15-start-after-stop" else s
     -- C14 one at a time
     let s := if s.running.any (·.1 == aid) then s.flag "c14-two-jobs-on-one-worker" else s
@@ -223,8 +233,9 @@ def oStep (s : OSt) : Ev → OSt
                if nondisc || q ≤ max l s.prevQ then s else s.flag "c15-queue-limit"
              | none => s)
           else s
-        -- C14 queuer never idles a worker while a job waits
-        let s := if s.info.router == RouterKind.q && q > 0 && act < live.length && s.info.rl.isNone
+        -- C14 queuer never idles a worker while a job waits (with or without a rate limiter: a refused job is
+        -- discarded as RateLimited, never left waiting)
+        let s := if s.info.router == RouterKind.q && q > 0 && act < live.length
           then s.flag "c14-queuer-idle-worker" else s
         -- C14: worker-queueing routers never leave a job in the factory queue while the pool is non-empty
         let s := if !isFactoryQueueing s.info.router && s.requested > 0 && q > 0
@@ -259,6 +270,27 @@ def oStep (s : OSt) : Ev → OSt
           else s
         { s with prevWq := wq }
       | none => s
+    -- C14 round-robin on the backlog path: a pool that gets its first workers takes the waiting backlog in
+    -- turns — afterwards no worker holds (running + queued) two jobs more than another
+    let s := match wq with
+      | some wq =>
+        if s.info.router == RouterKind.rr && s.grewFromZero && s.stepOps == 1 && up && !blocked && !wq.isEmpty then
+          let load := wq.map fun (x : Nat × Nat) =>
+            x.2 + (if s.running.any (fun r => (s.widOf.find? (fun (y : Nat × Nat) => y.1 == r.1)).map (fun (y : Nat × Nat) => y.2) == some x.1) then 1 else 0)
+          if load.foldl max 0 ≤ load.foldl min (load.foldl max 0) + 1 then s else s.flag "c14-round-robin-uneven"
+        else s
+      | none => s
+    -- C14 priority queue (plain queuer): a job taken from the factory queue in this step is at least as urgent as
+    -- every job that was waiting before the step and still waits after it, and among equally urgent ones it is
+    -- the older (`PriorityQueue::pop_front`: lowest priority index first, FIFO inside a class)
+    let s := if s.info.router == RouterKind.q && s.info.prioQueue && !s.everBlocked && !blocked && s.alwaysHandler then
+        let waiting := s.jobs.filter fun w => w.started.isNone && w.discards == 0 && !w.returned && w.step < s.step
+        if s.stepStarts.any (fun id => match s.getJob id with
+            | some j => waiting.any fun w =>
+                prioKey w.key < prioKey j.key || (prioKey w.key == prioKey j.key && w.step < j.step)
+            | none => false)
+        then s.flag "c14-priority-order" else s
+      else s
     -- C15 limit, Oldest: a dispatch that ends in the factory queue leaves it within L (a backlog
     -- that is deeper because the limit was lowered is trimmed by the very next such dispatch)
     let s := match q, s.stepDispatch.bind s.getJob, s.disc with
@@ -282,7 +314,8 @@ def oStep (s : OSt) : Ev → OSt
         if s.info.router == RouterKind.rr && n1 == n2 && n1 > 0 && w2 != rrNext w1 n1 then s.flag "c14-round-robin-skip" else s
       | _, _ => s
     { s with up := up, blocked := blocked, step := s.step + 1, stepDispatch := none, stepOps := 0,
-             discChanged := false, prevRR := s.curStart, curStart := none, handlerFuzzy := false }
+             discChanged := false, prevRR := s.curStart, curStart := none, handlerFuzzy := false, grewFromZero := false,
+             stepStarts := [], everBlocked := s.everBlocked || blocked }
 
 def oInit (info : Info) : OSt :=
   { info, requested := info.n, disc := info.disc, handler := if info.hasHandler then some 0 else none,
